@@ -12,6 +12,9 @@
 //	      and at the list level, every combination of the two levels: see crlext.go.
 //	(v)   empty / boundary cardinalities of every SET OF, SEQUENCE OF and constructed element of
 //	      certificates, requests, lists and keys: see cardinality.go.
+//	(vi)  the encodings of a private-key value (short, exact, over-long by 1..n zero octets, over-long
+//	      non-zero) for every curve and container against an independent reference, and leading
+//	      padding of every primitive value of every key document: see keyscalar.go.
 //
 // Model-tied cases (CSingle / CMany / CStrict / CList / CFatal) additionally carry what the inner
 // pieces (asn1.Unmarshal strict / lax into the real structure type, parseCertificate) do on the
@@ -1036,6 +1039,11 @@ func main() {
 	// 8. empty / one-member / one-less / one-more at every list and constructed element: hand-written
 	//    documents and a structural operator on every node of every document (cardinality.go)
 	rn.cardinalityStream(byKind, cardHand, cardSites)
+
+	// 9. the encodings of a private-key value (every curve x scalar class x octet form x container,
+	//    against an independent reference) and leading padding of every primitive value of every key
+	//    document (keyscalar.go)
+	rn.keyValueStream(byKind)
 
 	rn.w.Close()
 	fmt.Printf("c11: %d cases\n", rn.w.Len())
